@@ -13,7 +13,8 @@ RESULT_UNSAT, RESULT_SAT, RESULT_UNKNOWN = "unsat", "sat", "unknown"
 
 
 def _solve_one(job):
-    name, smt2, timeout_ms, want_model = job
+    name, smt2, timeout_ms, want_model = job[:4]
+    crosscheck = job[4] if len(job) > 4 else False
     t0 = time.time()
     out = {"name": name, "backend": "z3", "result": RESULT_UNKNOWN, "time": 0.0, "model": None, "reason": ""}
     try:
@@ -25,6 +26,13 @@ def _solve_one(job):
         out["time"] = time.time() - t0
         if r == z3.unsat:
             out["result"] = RESULT_UNSAT
+            if crosscheck:
+                # thorough tier: cvc5 re-checks every z3 `unsat` as an independent back end
+                r2, reason2 = _cvc5(smt2, timeout_ms)
+                out["crosscheck"] = r2
+                if r2 == RESULT_SAT:
+                    out["result"] = RESULT_UNKNOWN
+                    out["reason"] = "solver disagreement: z3 unsat, cvc5 sat"
             return out
         if r == z3.sat:
             out["result"] = RESULT_SAT
@@ -95,7 +103,7 @@ def _cvc5(smt2, timeout_ms):
             pass
 
 
-def solve_all(obligations, timeout_ms=20000, workers=None, want_model=True):
+def solve_all(obligations, timeout_ms=20000, workers=None, want_model=True, crosscheck=False):
     """obligations: list of core.Obligation. Returns list of result dicts (same order)."""
     workers = workers or min(16, os.cpu_count() or 4)
     jobs = []
@@ -105,7 +113,7 @@ def solve_all(obligations, timeout_ms=20000, workers=None, want_model=True):
         if z3.is_true(g):
             trivially[i] = {"name": ob.name, "backend": "simplifier", "result": RESULT_UNSAT, "time": 0.0, "model": None, "reason": ""}
             continue
-        jobs.append((i, (ob.name, ob.smt2(), timeout_ms, want_model)))
+        jobs.append((i, (ob.name, ob.smt2(), timeout_ms, want_model, crosscheck)))
     results = [None] * len(obligations)
     for i, r in trivially.items():
         results[i] = r
